@@ -52,11 +52,14 @@ class Chunking(FragmentTask):
 
 
 def tasks(tier):
-    return kernel_tasks("C16", ["expand"]) + [Chunking()]
+    from props.mandoline_parents import parent_tasks
+    from props.mandoline_boxes import box_tasks
+    return kernel_tasks("C16", ["expand"]) + [Chunking()] + parent_tasks("C16") + box_tasks("C16", ["slice"])[:1 if tier == "quick" else 3]
 
 
 def canaries(tier):
-    return kernel_canaries(["expand"]) + [
+    from props.mandoline_parents import parent_canaries
+    return kernel_canaries(["expand"]) + parent_canaries()[:1] + [
         ("chunking: number of chunks rounded down",
          [("amr_kitchen/mandoline/mandoline.py", "nchunks = -(-len(cell_indexes) // chunk_size)",
            "nchunks = len(cell_indexes) // chunk_size")], ["write_cell_data_at_level.chunking"])]
@@ -70,7 +73,7 @@ def scenarios(tier, seed):
     out = [{"kind": "slicepf", "seed": seed * 1000 + 1100 + i, "ndims": 3, "nf": [2, 3][i % 2], "nlevels": [2, 3, 1][i % 3],
             "nfiles": [2, 3][i % 2], "layout": ["shuffled", "roundrobin"][i % 2], "n0": [[16, 16, 16], [16, 8, 24]][i % 2],
             "geo_lo": [[1.0, 2.0, 3.0], [0., 0., 0.]][i % 2], "dx0": [[0.1, 0.2, 0.4], [1., 0.5, 0.25]][i % 2],
-            "payload": ["affine", "random"][i % 2], "ncombos": 2 if tier == "quick" else 4, "npos": 7 if tier == "quick" else 20}
+            "payload": ["affine", "random"][i % 2], "ncombos": 2 if tier == "quick" else 4, "npos": 12 if tier == "quick" else 24}
            for i in range(2 if tier == "quick" else 8)]
     # a slice whose written size exceeds the one-megabyte file-splitting threshold (3 boxes -> uneven chunks)
     out.append({"kind": "slicepf", "seed": seed * 1000 + 1150, "ndims": 3, "nf": 8, "nfiles": 2, "layout": "shuffled",
